@@ -382,8 +382,18 @@ def _run_random(ctx, case):
     ctx.case(case, _nontrivial(R, C))
     base = {"shape": [R, C], "mode": mode, "seed": seed}
     try:
+        # the assignment of this (shape, seed, mode), read from an object that is used at once ...
+        early = list(WellRandomizer((R, C), seed, mode=mode).randomize_wells([wid(r, c) for r in range(R) for c in range(C)]))
         w1 = WellRandomizer((R, C), seed, mode=mode)
         w2 = WellRandomizer((R, C), seed, mode=mode)
+        # ... while the objects under test are used only after OTHER randomizers were created in the same
+        # process (another seed, another plate, another mode): those must not influence them
+        for dshape, dseed, dmode in (((R, C), seed + 1, mode), ((max(1, R - 1), C + 1), seed, "full"),
+                                     ((R, C), seed + 7, "column" if mode != "column" else "row")):
+            try:
+                WellRandomizer(dshape, dseed, mode=dmode)
+            except Exception:
+                pass
         exc = None
     except Exception as e:
         w1 = w2 = None
@@ -402,6 +412,8 @@ def _run_random(ctx, case):
                   lambda: dict(base, function="randomize_wells", input=all_ids, returned=perm_out))
         if ok:
             perm = dict(zip(all_ids, perm_out))
+        J.eq("same_seed_gives_same_mapping", list(perm_out), early,
+             "randomize_wells (object used after other randomizers were created vs. object used at once)", "flat_list", all_ids)
         inv_out = J.call("derandomize_wells", w1.derandomize_wells, all_ids, "list", "flat_list")
         if inv_out is not None:
             ctx.check("whole_plate_is_permuted_bijectively",
@@ -482,6 +494,12 @@ def run_case(ctx, case):
     case = {k: v for k, v in case.items() if k != "index"}  # the running number is not an input
     kind = case["kind"]
     ctx.count("kind:" + kind)
+    from ..world import scribble_on_helper_results
+
+    for shp in (case.get("shape"), case.get("A"), case.get("B")):
+        if shp:
+            scribble_on_helper_results(int(shp[0]), int(shp[1]))
+            scribble_on_helper_results(int(shp[1]), int(shp[0]))
     if kind == "shift":
         _run_shift(ctx, case)
     elif kind == "rotate":
